@@ -145,6 +145,36 @@ impl Property for C17 {
                     sc.op("ev", &[kind, a, b]);
                 }
             }
+            // wider counters behind the 8-bit ports / per-event revision stamps: a long run of travel in one
+            // direction (beyond 16-bit totals), or exactly 255..257 / 511..513 key events between two scans with
+            // a state change at the end
+            if rng.chance(1, 90) {
+                if rng.bool() {
+                    let d = *rng.pick(&[127i64, -128, 127, -127, 100]);
+                    let (dx, dy) = match rng.below(3) {
+                        0 => (d, 0),
+                        1 => (0, d),
+                        _ => (d, -d.max(-127)),
+                    };
+                    for _ in 0..rng.range(258, 560) {
+                        sc.op("ev", &[6, dx, dy]);
+                    }
+                } else {
+                    let total = *rng.pick(&[255i64, 256, 256, 257, 511, 512, 512, 513, 768]);
+                    let k = *rng.pick(&[0i64, 1, 2]);
+                    let (key, last) = match k {
+                        0 => (rng.range(0, 39), rng.range(0, 39)),
+                        1 => (rng.range(0, 6), rng.range(0, 6)),
+                        _ => (rng.range(0, 4), 8),
+                    };
+                    // the key toggles (it ends released when the number of toggles is even), then one more key goes
+                    // down or up: the matrix differs from the one of the previous scan
+                    for i in 0..total - 1 {
+                        sc.op("ev", &[k, key, (i % 2 == 0) as i64]);
+                    }
+                    sc.op("ev", &[*rng.pick(&[0i64, 1, 2]), last, rng.chance(3, 4) as i64]);
+                }
+            }
             // scans
             let scans = rng.range(1, 3);
             for _ in 0..scans {
